@@ -92,10 +92,12 @@ def hygiene():
     return bad
 
 
-def build():
+def build(pid=None):
+    """returns (ok, log, seconds, props_only_failure): exit 3 of build.sh means that only the property's
+    own proof closure failed to compile (models, specs, extraction and driver are fine)"""
     t0 = time.time()
-    p = subprocess.run([os.path.join(VERIF, "build.sh")], capture_output=True, text=True)
-    return p.returncode == 0, (p.stdout + p.stderr)[-4000:], time.time() - t0
+    p = subprocess.run([os.path.join(VERIF, "build.sh")] + ([pid] if pid else []), capture_output=True, text=True)
+    return p.returncode == 0, (p.stdout + p.stderr)[-4000:], time.time() - t0, p.returncode == 3
 
 
 def dep_closure(prop_file):
@@ -259,7 +261,7 @@ def run_check(mod, pid, tier, seed, args, workdir, t0):
     notes = []
     build_ok, build_log, build_s = (True, "", 0.0)
     if not args.no_build:
-        build_ok, build_log, build_s = build()
+        build_ok, build_log, build_s, _props_only = build(pid)
     bad = hygiene()
     files, n_lemmas, thms = proof_stats(mod.PROP_FILE)
     pa_ok, closed, axioms, pa_text = (False, 0, [], "")
